@@ -11,6 +11,7 @@ import (
 	"bytes"
 	"encoding/json"
 	"fmt"
+	"io"
 	"io/ioutil"
 	"net/http"
 	"net/http/httptest"
@@ -119,6 +120,28 @@ func httpDo(method, u, body, ctype string) Resp {
 	return Resp{Status: resp.StatusCode, Body: string(b)}
 }
 
+// unknownLength hides the length of a body from net/http (which then sends it chunked).
+type unknownLength struct{ r io.Reader }
+
+func (u unknownLength) Read(p []byte) (int, error) { return u.r.Read(p) }
+
+func httpDoReader(method, u string, body io.Reader, ctype string) Resp {
+	req, err := http.NewRequest(method, u, body)
+	if err != nil {
+		return Resp{Err: "bad request: " + err.Error()}
+	}
+	if ctype != "" {
+		req.Header.Set("Content-Type", ctype)
+	}
+	resp, err := http.DefaultClient.Do(req)
+	if err != nil {
+		return Resp{Err: "transport: " + err.Error()}
+	}
+	b, _ := ioutil.ReadAll(resp.Body)
+	resp.Body.Close()
+	return Resp{Status: resp.StatusCode, Body: string(b)}
+}
+
 func asString(v interface{}) string {
 	switch t := v.(type) {
 	case string:
@@ -198,6 +221,22 @@ var encodings = []encoding{
 	{"json-body-version", func(e *engine, r Req) Resp {
 		b, _ := json.Marshal(r.Params)
 		return httpDo("POST", e.srv.URL+"/v1.0/api"+r.URI, string(b), "application/json")
+	}},
+	{"json-body-chunked", func(e *engine, r Req) Resp {
+		// the same JSON body from a reader of unknown length: no Content-Length, chunked transfer
+		b, _ := json.Marshal(r.Params)
+		return httpDoReader("POST", e.srv.URL+"/api"+r.URI, unknownLength{strings.NewReader(string(b))}, "application/json")
+	}},
+	{"form-chunked", func(e *engine, r Req) Resp {
+		q := url.Values{}
+		for k, v := range r.Params {
+			q.Set(k, asString(v))
+		}
+		return httpDoReader("POST", e.srv.URL+"/api"+r.URI, unknownLength{strings.NewReader(q.Encode())}, "application/x-www-form-urlencoded")
+	}},
+	{"json-envelope-chunked", func(e *engine, r Req) Resp {
+		b, _ := json.Marshal(withURI(r))
+		return httpDoReader("POST", e.srv.URL+"/api/json", unknownLength{strings.NewReader(string(b))}, "application/json")
 	}},
 	{"form-noapi", func(e *engine, r Req) Resp {
 		q := url.Values{}
@@ -282,7 +321,7 @@ func genFact(g *gen.Gen) map[string]interface{} {
 
 func genHistory(g *gen.Gen, n int) []Req {
 	locs := []string{"plain", "loc two&three"}
-	ids := []string{"i1", "id two", "i/3", `q"uote`, `back\slash`}
+	ids := []string{"i1", "id two", "i/3", `q"uote`, `back\slash`, " door", "door", "door "}
 	var h []Req
 	lastFact := map[string]interface{}{"a": "x"}
 	for i := 0; i < n; i++ {
@@ -352,6 +391,14 @@ func genHistory(g *gen.Gen, n int) []Req {
 		default:
 			r.URI = "/loc/facts/take"
 			p["pattern"] = map[string]interface{}{"a": fmt.Sprint(lastFact["a"])}
+			if g.Intn(2) == 0 {
+				// replace: everything that matches goes, the new fact comes (under the given id, if any)
+				r.URI = "/loc/facts/replace"
+				p["fact"] = genFact(g)
+				if g.Intn(2) == 0 {
+					p["id"] = id
+				}
+			}
 		}
 		h = append(h, r)
 	}
@@ -604,6 +651,18 @@ func main() {
 					if (err == nil) != (results["direct"][i].Status == 200) || (err == nil && fmt.Sprint(body["size"]) != fmt.Sprint(n)) {
 						r.Violate("", "/loc/admin/size through the service does not return what the direct System call returns", rep.J{"request": q, "service_response": results["direct"][i], "system_size": n, "system_err": fmt.Sprint(err), "history": hist[:i+1]})
 					}
+				}
+				if q.URI == "/loc/facts/replace" {
+					loc, _ := q.Params["location"].(string)
+					pj, _ := json.Marshal(q.Params["pattern"])
+					if srs, err := twin.SearchFacts(drv.Ctx(), loc, string(pj), false); err == nil {
+						for _, f := range srs.Found {
+							twin.RemFact(drv.Ctx(), loc, f.Id)
+						}
+					}
+					fj, _ := json.Marshal(q.Params["fact"])
+					rid, _ := q.Params["id"].(string)
+					twin.AddFact(drv.Ctx(), loc, rid, string(fj))
 				}
 				if q.URI == "/loc/facts/take" {
 					loc, _ := q.Params["location"].(string)
